@@ -35,17 +35,17 @@ impl FromStr for UserBounds {
     type Err = anyhow::Error;
 
     fn from_str(s: &str) -> Result<Self, Self::Err> {
-        if s.is_empty() {
-            bail!("Field format error: empty field");
-        } else if s == ":" {
-            bail!("Field format error, no numbers next to `:`");
-        }
-
         let mut fallback_oob: Option<Vec<u8>> = None;
         let mut s = s;
         if let Some((range_part, fallback)) = s.split_once('=') {
             fallback_oob = Some(fallback.into());
             s = range_part;
+        }
+
+        if s.is_empty() {
+            bail!("Field format error: empty field");
+        } else if s == ":" {
+            bail!("Field format error, no numbers next to `:`");
         }
 
         let (l, r) = match s.find(':') {
